@@ -57,7 +57,7 @@ def gen(rng, tier):
     # ---- WebSocket over HTTP/2: control frames arriving while the stream's send buffer is full must not stop the reader, or the very
     # WINDOW_UPDATE that would drain the buffer is never read
     for rep in range(2 if tier == "quick" else 12):
-        for what in ("ping", "pings", "text", "close"):
+        for what in ("ping", "pings", "text", "close", "oversize"):
             n += 1
             yield _build_wsping(rng, 960000 + n, what)
     # ---- WSGI applications stream through the same back-pressure: the iterable is consumed only as fast as the client accepts data ----
@@ -93,13 +93,16 @@ def _build_wsping(rng, n, what):
     hd = [(b":method", b"CONNECT"), (b":protocol", b"websocket"), (b":scheme", b"http"), (b":path", b"/t%d" % n), (b":authority", b"h"),
           (b"sec-websocket-version", b"13")]
     during = {"close": _ws.close_frame(1000), "ping": _ws.frame(_ws.OP_PING, b"are-you-there"), "pings": b"".join(_ws.frame(_ws.OP_PING, b"p%d" % k) for k in range(50)),
-              "text": _ws.message_frames(_ws.OP_TEXT, b"hello")}[what]
+              "text": _ws.message_frames(_ws.OP_TEXT, b"hello"),
+              # a message over websocket_max_message_size (set to 1000 below): the server itself has to say goodbye (1009) - into a full buffer
+              "oversize": _ws.message_frames(_ws.OP_BIN, b"o" * 3000)}[what]
     total = nmsg * (size + 14) + 10000
     client = [["feed", client_preface(fb, rspec) + fb.headers(1, hd, end_stream=False)], ["settle"], ["feed", fb.data(1, during)], ["settle"],
               ["mark", "stall"], ["react", "window_update", 1, total], ["react", "window_update", 0, total], ["settle"]]
-    if what == "close":
+    if what in ("close", "oversize"):
         client += [["advance", 1.0], ["eof"], ["settle"]]
-    return {"family": "wsh2.%s-under-backpressure" % what, "backends": ["asyncio", "trio"], "config": {"keep_alive_timeout": 5000}, "conn": {},
+    return {"family": "wsh2.%s-under-backpressure" % what, "backends": ["asyncio", "trio"],
+            "config": dict({"keep_alive_timeout": 5000}, **({"websocket_max_message_size": 1000} if what == "oversize" else {})), "conn": {},
             "apps": {"default": app, "websocket": app}, "client": client, "reactor": rspec,
             "truth": {"kind": "wsh2", "what": what, "size": nmsg * size, "chunk": size, "tag": n, "sib": [], "nmsg": nmsg, "release": "credit"},
             "sched": {"seed": rng.randrange(1 << 30)}, "horizon": 100.0}
@@ -475,6 +478,13 @@ def check(case, obs, tally):
             p_.feed(bytes(s_.data))
         got = sum(len(v) for k, v in p_.messages if k == "bytes")
         stuck = obs.open_sends()
+        if t["what"] == "oversize":
+            # the server says goodbye (1009): what still arrives of the data is not demanded, but nothing may be left hanging
+            if stuck or obs.handler != "ok":
+                out.append({"clause": "released", "sig": "C08.not-released/wsh2/oversize-while-buffer-full",
+                            "detail": "WebSocket over HTTP/2, send buffer full, the client sends a message over the size limit (the server must close with "
+                                      "1009), grants credit and finally EOF: %d application send(s) still waiting, connection handler %s" % (len(stuck), obs.handler)})
+            return out
         if t["what"] == "close":
             # the client has said goodbye: what still arrives of the data is not demanded, but nothing may be left hanging
             if stuck or obs.handler != "ok":
